@@ -85,6 +85,23 @@ def _bounded_round(number: Any, ndigits: Any = None) -> Any:
     return round(number, ndigits)
 
 
+def _bounded_sum(iterable: Any, start: Any = 0) -> Any:
+    """sum that concatenates list/tuple items in linear time and refuses results too long to build in bounded time."""
+    if isinstance(start, (list, tuple)):
+        kind = list if isinstance(start, list) else tuple
+        result = list(start)
+        for item in iterable:
+            if not isinstance(item, kind):
+                raise TypeError(
+                    f'can only concatenate {kind.__name__} (not "{type(item).__name__}") to {kind.__name__}'
+                )
+            result.extend(item)
+            if len(result) > MAX_SEQUENCE_LENGTH:
+                raise ValueError("Result of sum() too large")
+        return result if kind is list else tuple(result)
+    return sum(iterable, start)
+
+
 class MetabolicPathway(Enum):
     """
     Different metabolic pathways for different substrates.
@@ -231,7 +248,7 @@ class Mitochondria:
         'round': _bounded_round,
         'min': min,
         'max': max,
-        'sum': sum,
+        'sum': _bounded_sum,
         'len': len,
         'int': int,
         'float': float,
